@@ -8,6 +8,7 @@
 -/
 import OQuPyVerif.Lemmas.PathStar
 import OQuPyVerif.Model.Tempo
+import OQuPyVerif.Props.C02
 
 namespace OQuPyVerif.Props.C04
 open Finset BigOperators OQuPyVerif.PathSum OQuPyVerif.Tempo
@@ -99,6 +100,64 @@ theorem influence_conj [StarRing K] (E : K → K) (hE : ∀ z, star (E z) = E (s
   congr 1
   simp only [star_neg, star_mul', star_add, hOm, hOp, hre, him, hi, hOmr, hOpr]
   ring
+
+
+/-! ### PT-TEMPO + compute_dynamics -/
+open OQuPyVerif.PT
+
+/-- Trace preservation of the states recorded by `compute_dynamics` from a process tensor whose
+    dense form is the influence functional (C02: `mpo_dynamics_eq_tempo`), at every step `n+1`,
+    when no pre-measurement control is applied at the recording step (`pre = 1`). -/
+theorem pt_trace_preserved (L : ℕ) (D : ℕ → ℕ) (T : ℕ → ℕ → ℕ → ℕ → ℕ → K)
+    (A B : ℕ → ℕ → ℕ → K) (cap : ℕ → ℕ → K) (Uin Uout : ℕ → ℕ → K)
+    (I : ℕ → ℕ → ℕ → ℕ → K) (ρ0 : ℕ → K) (trv : ℕ → K) (n : ℕ)
+    (hPT : ∀ p, IsPath L (2 * (n+1)) p →
+      densePT D T cap (n+1) p = ptOfInfluence L Uin Uout I (n+1) p)
+    (hA : ∀ k, Preserves L trv (A k)) (hB : ∀ k, Preserves L trv (B k))
+    (hin : Preserves L trv Uin) (hout : Preserves L trv Uout)
+    (hI : ∀ n dk a c, trv a * I n dk a c = trv a) :
+    ∑ out ∈ range L, trv out *
+        mpoRecord L D T A B cap (fun a b => if a = b then 1 else 0) ρ0 (n+1) out
+      = ∑ a ∈ range L, trv a * ρ0 a := by
+  have h := fun out => OQuPyVerif.Props.C02.mpo_dynamics_eq_tempo L D T A B cap Uin Uout I
+    (fun a b => if a = b then 1 else 0) ρ0 n out hPT
+  rw [← trace_preserved L ρ0 (fun k => A (k-1)) (fun k => B (k-1)) Uin Uout I trv
+    (fun k => hA (k-1)) (fun k => hB (k-1)) hin hout hI (n+1)]
+  apply Finset.sum_congr rfl; intro out hout'
+  rw [h out]
+  congr 1
+  rw [Finset.sum_eq_single out]
+  · simp
+  · intro b _ hb; simp [Ne.symm hb]
+  · intro hno; exact absurd hout' hno
+
+/-- Hermiticity of the states recorded by `compute_dynamics` (same setting). -/
+theorem pt_hermitian_preserved [StarRing K] (L : ℕ) (σ : ℕ → ℕ) (hσ : IsSwap L σ)
+    (D : ℕ → ℕ) (T : ℕ → ℕ → ℕ → ℕ → ℕ → K)
+    (A B : ℕ → ℕ → ℕ → K) (cap : ℕ → ℕ → K) (Uin Uout : ℕ → ℕ → K)
+    (I : ℕ → ℕ → ℕ → ℕ → K) (ρ0 : ℕ → K) (n : ℕ)
+    (hPT : ∀ p, IsPath L (2 * (n+1)) p →
+      densePT D T cap (n+1) p = ptOfInfluence L Uin Uout I (n+1) p)
+    (hρ : ∀ a, a < L → star (ρ0 (σ a)) = ρ0 a)
+    (hA : ∀ k, StarSym L σ (A k)) (hB : ∀ k, StarSym L σ (B k))
+    (hin : StarSym L σ Uin) (hout : StarSym L σ Uout)
+    (hI : ∀ n dk a c, a < L → c < L → star (I n dk (σ a) (σ c)) = I n dk a c)
+    (out : ℕ) (hout' : out < L) :
+    star (mpoRecord L D T A B cap (fun a b => if a = b then 1 else 0) ρ0 (n+1) (σ out))
+      = mpoRecord L D T A B cap (fun a b => if a = b then 1 else 0) ρ0 (n+1) out := by
+  have h := fun o => OQuPyVerif.Props.C02.mpo_dynamics_eq_tempo L D T A B cap Uin Uout I
+    (fun a b => if a = b then 1 else 0) ρ0 n o hPT
+  have hsum : ∀ o, o < L → ∑ s ∈ range L, (if o = s then (1:K) else 0) *
+      tempoState L ρ0 (fun k => A (k-1)) (fun k => B (k-1)) Uin Uout I (n+1) s
+      = tempoState L ρ0 (fun k => A (k-1)) (fun k => B (k-1)) Uin Uout I (n+1) o := by
+    intro o ho
+    rw [Finset.sum_eq_single o]
+    · simp
+    · intro b _ hb; simp [Ne.symm hb]
+    · intro hno; exact absurd (Finset.mem_range.mpr ho) hno
+  rw [h, h, hsum _ (hσ.lt out hout'), hsum _ hout']
+  exact hermitian_preserved L σ hσ ρ0 _ _ Uin Uout I hρ (fun k => hA (k-1)) (fun k => hB (k-1))
+    hin hout hI (n+1) out hout'
 
 /-- non-vacuity: a 1-level "system" (L = 1) with all tables 1 meets every hypothesis -/
 example : ∑ out ∈ range 1, (fun _ => (1:ℚ)) out *
